@@ -358,6 +358,15 @@ static void run_cmd(const sim::Cmd &c, sim::Out &out)
       push("xtick", {2});
       push("xfailp", {static_cast<long>(g.below(3))});
     }
+    else if (sim::Rng(seed).derive("exec-endfail").chance(1, std::any_of(ops.begin(), ops.end(), [](const Op &o) { return o.name == "epin"; }) ? 2 : 5))
+    { // the adaptive script (see xendfail), after a few ordinary ticks
+      n = static_cast<int>(sw.range(0, 2));
+      faults_left = 0;
+      Op o;
+      o.name = "xendfail";
+      o.a = {static_cast<long>(g.below(3)), static_cast<long>(g.below(2)), static_cast<long>(g.below(16))};
+      ops.push_back(o);
+    }
     for (int i = 0; i < n; ++i)
     {
       Op o;
@@ -504,37 +513,29 @@ static void run_cmd(const sim::Cmd &c, sim::Out &out)
       long sol_before = sim.cl->solutions;
       try
       {
-        if (op.name == "xtick")
+        auto tick_once = [&]()
         {
-          long n = std::abs(op.arg(0)) % 16;
-          for (long k = 0; k < n && sim.viols.empty(); ++k)
+          ++sim.tick_no;
+          ++total_ticks;
+          long cb = sim.tick_callbacks;
+          long sb = sim.cl->solutions;
+          sim.ex->tick();
+          if (pending_recheck)
           {
-            ++sim.tick_no;
-            ++total_ticks;
-            long cb = sim.tick_callbacks;
-            long sb = sim.cl->solutions;
-            sim.ex->tick();
-            if (pending_recheck)
-            {
-              pending_recheck = false;
-              check_frozen(sim);
-              check_plan(sim, units_read, "a late requirement (first tick after it)");
-            }
-            if (sim.tick_callbacks != cb + 1)
-              sim.viol("X1.tick_callbacks", "one tick() call produced " + std::to_string(sim.tick_callbacks - cb) + " tick callbacks");
+            pending_recheck = false;
             check_frozen(sim);
-            if (sim.cl->solutions != sb)
-            {
-              ++sim.adaptations;
-              check_plan(sim, units_read, "a delay handled inside tick()", true);
-            }
+            check_plan(sim, units_read, "a late requirement (first tick after it)");
           }
-        }
-        else if (op.name == "xdstart")
-          sim.arm_start.push_back({std::abs(op.arg(0)), mpq_class(delays[std::abs(op.arg(1)) % 5])});
-        else if (op.name == "xdend")
-          sim.arm_end.push_back({std::abs(op.arg(0)), mpq_class(delays[std::abs(op.arg(1)) % 5])});
-        else if (op.name == "xfail" || op.name == "xfailp")
+          if (sim.tick_callbacks != cb + 1)
+            sim.viol("X1.tick_callbacks", "one tick() call produced " + std::to_string(sim.tick_callbacks - cb) + " tick callbacks");
+          check_frozen(sim);
+          if (sim.cl->solutions != sb)
+          {
+            ++sim.adaptations;
+            check_plan(sim, units_read, "a delay handled inside tick()", true);
+          }
+        };
+        auto fail_one = [&](bool of_executing, long which)
         {
           std::vector<ratio::atom *> cands;
           sim.reindex();
@@ -544,22 +545,59 @@ static void run_cmd(const sim::Cmd &c, sim::Out &out)
               continue;
             AtomRec &r = sim.rec[a];
             bool executing = r.starts > 0 && r.ends == 0, pending = r.starts == 0;
-            if (op.name == "xfail" ? executing : pending)
+            if (of_executing ? executing : pending)
               cands.push_back(a);
           }
-          if (!cands.empty())
+          if (cands.empty())
+            return false;
+          ratio::atom *a = cands[static_cast<size_t>(std::abs(which)) % cands.size()];
+          sim.cnt.inc(of_executing ? "fault.failure_of_executing_atom" : "fault.failure_of_pending_atom");
+          ++sim.faults_fired;
+          sim.log.ev("failure " + sim.name(a));
+          sim.ex->failure({a});
+          ++sim.adaptations;
+          sim.rec.erase(a);
+          check_frozen(sim);
+          check_plan(sim, units_read, "failure()");
+          return true;
+        };
+        if (op.name == "xtick")
+        {
+          long n = std::abs(op.arg(0)) % 16;
+          for (long k = 0; k < n && sim.viols.empty(); ++k)
+            tick_once();
+        }
+        else if (op.name == "xendfail")
+        { // an adaptive script (a client that reacts to what it sees): delay one end a little, keep ticking until an atom whose end
+          // was delayed HAS ended, then report another atom (a pending one if there is one, else an executing one) as failed, twice:
+          // "delayed, ended, then the plan changes" - the frozen end has to survive the re-planning
+          sim.arm_end.push_back({std::abs(op.arg(0)), mpq_class(delays[1 + std::abs(op.arg(1)) % 2])});
+          bool seen = false;
+          for (long k = 0; k < 24 && sim.viols.empty() && !seen; ++k)
           {
-            ratio::atom *a = cands[static_cast<size_t>(std::abs(op.arg(0))) % cands.size()];
-            sim.cnt.inc(op.name == "xfail" ? "fault.failure_of_executing_atom" : "fault.failure_of_pending_atom");
-            ++sim.faults_fired;
-            sim.log.ev("failure " + sim.name(a));
-            sim.ex->failure({a});
-            ++sim.adaptations;
-            sim.rec.erase(a);
-            check_frozen(sim);
-            check_plan(sim, units_read, "failure()");
+            tick_once();
+            for (auto &p : sim.rec)
+              if (p.second.ends > 0 && !p.second.end_lbs.empty())
+                seen = true;
+          }
+          if (seen)
+            sim.cnt.inc("probe.delayed_end_then_ended");
+          for (int rep = 0; rep < 2 && seen && sim.viols.empty(); ++rep)
+          {
+            const bool pend_first = ((std::abs(op.arg(2)) >> rep) & 1) == 0;
+            if (!fail_one(!pend_first, op.arg(2) / 4) && !fail_one(pend_first, op.arg(2) / 4))
+              break;
+            sim.cnt.inc("probe.failure_after_delayed_end");
+            for (long k = 0; k < 2 && sim.viols.empty(); ++k)
+              tick_once();
           }
         }
+        else if (op.name == "xdstart")
+          sim.arm_start.push_back({std::abs(op.arg(0)), mpq_class(delays[std::abs(op.arg(1)) % 5])});
+        else if (op.name == "xdend")
+          sim.arm_end.push_back({std::abs(op.arg(0)), mpq_class(delays[std::abs(op.arg(1)) % 5])});
+        else if (op.name == "xfail" || op.name == "xfailp")
+          fail_one(op.name == "xfail", op.arg(0));
         else if ((op.name == "lgoal" || op.name == "lfact") && q_late)
           sim.cnt.inc("quarantined.late_requirement");
         else if (op.name == "lgoal" || op.name == "lfact")
